@@ -538,3 +538,107 @@ func ruleW6(r *Run) {
 		check(s.fd, s.call, recvExpr, s.call.Args[2], "elem", fmt.Sprintf("map element pointer in %s #%d", fn, perFn[fn]), 0)
 	}
 }
+
+// W5 (C04): inserting into a Go map hashes the key; a key whose type can hold an interface value
+// (interface{}, or a struct/array containing one) panics with "hash of unhashable type" when the
+// wire put a list, map or bytes item there.
+func init() {
+	register("W5", "a map insertion (UnsafeSetIndex) whose key was filled by a decode handler from the wire runs under a deferred recover that turns the runtime's unhashable-key panic into a decoder error (directly, or in the helper that performs the insertion)", 1, ruleW5)
+}
+
+func ruleW5(r *Run) {
+	p := r.P
+	pkg := p.Pkg("io")
+	if pkg == nil {
+		r.Undec("package io", 0, "not found")
+		return
+	}
+	info := pkg.TypesInfo
+	hasRecover := func(fd *ast.FuncDecl) bool {
+		found := false
+		ast.Inspect(fd.Body, func(n ast.Node) bool {
+			if d, ok := n.(*ast.DeferStmt); ok {
+				ast.Inspect(d, func(m ast.Node) bool {
+					if c, ok := m.(*ast.CallExpr); ok && IsBuiltin(info, c, "recover") {
+						found = true
+					}
+					return true
+				})
+			}
+			return true
+		})
+		return found
+	}
+	// insertsParam: fd passes its parameter #i as the key of UnsafeSetIndex
+	insertsKeyParam := func(fd *ast.FuncDecl) int {
+		idx := -1
+		params := paramsOf(info, fd.Type)
+		ast.Inspect(fd.Body, func(n ast.Node) bool {
+			c, ok := n.(*ast.CallExpr)
+			if !ok || methodName(c) != "UnsafeSetIndex" || len(c.Args) != 3 {
+				return true
+			}
+			if o := identObj(info, c.Args[1]); o != nil {
+				for i, pv := range params {
+					if pv == o {
+						idx = i
+					}
+				}
+			}
+			return true
+		})
+		return idx
+	}
+	n := 0
+	p.EachFunc(func(pk *packages.Package, fd *ast.FuncDecl) {
+		if pk != pkg {
+			return
+		}
+		// key slots filled from the wire: X in `<recv>.decodeKey(dec, t, X)` (a DecodeHandler-typed field call)
+		wireKeys := map[types.Object]bool{}
+		ast.Inspect(fd.Body, func(m ast.Node) bool {
+			c, ok := m.(*ast.CallExpr)
+			if !ok || len(c.Args) != 3 {
+				return true
+			}
+			se, ok := c.Fun.(*ast.SelectorExpr)
+			if !ok || se.Sel.Name != "decodeKey" {
+				return true
+			}
+			if o := identObj(info, c.Args[2]); o != nil {
+				wireKeys[o] = true
+			}
+			return true
+		})
+		if len(wireKeys) == 0 {
+			return
+		}
+		ast.Inspect(fd.Body, func(m ast.Node) bool {
+			c, ok := m.(*ast.CallExpr)
+			if !ok {
+				return true
+			}
+			if methodName(c) == "UnsafeSetIndex" && len(c.Args) == 3 {
+				if o := identObj(info, c.Args[1]); o != nil && wireKeys[o] {
+					n++
+					r.Check(hasRecover(fd), fmt.Sprintf("wire-keyed map insertion in %s #%d", p.DeclName(fd), n), c.Pos(), "under a deferred recover", "the key was decoded from the wire and is inserted without a recover: for a key type that can hold an interface value, a list/map/bytes item in key position (`m1{a0{}1}`) panics with hash of unhashable type")
+				}
+				return true
+			}
+			if f := Callee(info, c); f != nil && p.InRepo(f) {
+				if d := p.Decl(f); d != nil && d.Body != nil {
+					if ki := insertsKeyParam(d); ki >= 0 && ki < len(c.Args) {
+						if o := identObj(info, c.Args[ki]); o != nil && wireKeys[o] {
+							n++
+							r.Check(hasRecover(d), fmt.Sprintf("wire-keyed map insertion in %s #%d", p.DeclName(fd), n), c.Pos(), "the inserting helper "+p.DeclName(d)+" recovers", "the key was decoded from the wire and is inserted by "+p.DeclName(d)+" without a recover: a list/map/bytes item in key position panics with hash of unhashable type")
+						}
+					}
+				}
+			}
+			return true
+		})
+	})
+	if n == 0 {
+		r.Undec("wire-keyed map insertions", 0, "no UnsafeSetIndex with a decodeKey-filled key found")
+	}
+}
